@@ -252,8 +252,11 @@ def check(seed, p, ops=None):
     buffs_impl = run.last_spy.buffs_after
     answers, banswers, cur, curb = [], [], {}, {}
     in_b = False
+    illegal = []
     for ln in out:
-        if ln == '.':
+        if ln.startswith('illegal '):
+            illegal.append((len(answers), ln[8:]))
+        elif ln == '.':
             if in_b:
                 banswers.append(curb)
                 curb = {}
@@ -275,6 +278,16 @@ def check(seed, p, ops=None):
     if len(answers) != len(impl) or len(banswers) != len(impl):
         raise C.InfraError('micro driver answered %d/%d of %d steps' % (len(answers), len(banswers), len(impl)))
     stats = {'steps': len(impl), 'cached_entries': sum(len(x) for x in impl)}
+    # load / unload of an item that is a recorded target or still has running effects is the K1 class (and the
+    # wholesale unloading of a source switch / fit removal): counted, the theorems do not cover those histories
+    stats['steps_outside_stepok_load_unload'] = sum(1 for _, ln in illegal if ln[:2] in ('ML', 'MU'))
+    illegal = [x for x in illegal if x[1][:2] not in ('ML', 'MU')]
+    if illegal:
+        # the real message stream broke the protocol the legality theorems assume (side conditions StepOK of
+        # start / stop / apply / buffset: effects start and stop with no targets recorded, ...)
+        k, ln = illegal[0]
+        return done, {'where': 'L2:step-legality', 'step': k, 'op': done[min(k, len(done) - 1)], 'model': 'StepOK ' + ln,
+                      'impl': 'message delivered in a state where StepOK is false', 'count': len(illegal)}, stats
     for k, (m, i) in enumerate(zip(answers, impl)):
         if set(m) != set(i):
             return done, {'where': 'L2:cache-keys', 'step': k, 'op': done[k],
